@@ -11,8 +11,41 @@ func init() {
 		ID:  "C06",
 		Run: runC06,
 		Decided: "the lookup of PutValue is reached only on the nil-error edge of the local store, which stores MakePutRecord(key, value) under key, and the same record goes to every peer (R1); the send loops range over exactly the slice the lookup returned (result.peers, never the list with failed peers), have no early exit, start one worker per peer which only logs its error (R2); " +
-			"every ADD_PROVIDER built by the DHT names {self, FilteredAddrs()}, the host's raw addresses are read only inside FilteredAddrs (R3); the local provider record is added before any broadcast (R4); no announcement without addresses (R5); corrective puts go to the result peers not known to hold the best value, that set is rebuilt whenever best changes, and none are sent after an abort (R6); optimistic provide schedules each peer once, under its lock (R7).",
+			"every ADD_PROVIDER built by the DHT names {self, FilteredAddrs()}, the host's raw addresses are read only inside FilteredAddrs (R3); the local provider record is added before any broadcast (R4); no announcement without addresses (R5); corrective puts go to the result peers not known to hold the best value, that set is rebuilt whenever best changes, and none are sent after an abort (R6); optimistic provide schedules each peer once, under its lock, and the context of its asynchronous puts is not cancelled by returning (R7).",
 		NotDecided: "which peers the lookup returns; delivery of the messages themselves.",
+	})
+}
+
+// c06PutContext: the context governing the asynchronous ADD_PROVIDER RPCs of an optimistic
+// provide outlives the function: in the function's own flow it is cancelled only when the
+// function fails before any RPC was started.
+func c06PutContext(c *Ctx) {
+	f := c.Fn("(*dht.IpfsDHT).optimisticProvide")
+	info := f.Info()
+	cf := f.CFG()
+	var cancel eng.Object
+	for _, as := range assignsTo(f, func(l ast.Expr) bool { return true }) {
+		if call, ok := eng.IsCallTo(info, as.Rhs[0], "context.WithTimeout", "context.WithCancel"); ok && len(as.Lhs) == 2 && len(call.Args) >= 1 && eng.IsField(info, call.Args[0], "dht.IpfsDHT.ctx") {
+			cancel = eng.ObjOf(info, as.Lhs[1])
+		}
+	}
+	if !c.Check(K(f.Name, "put context"), f.Pos(), cancel != nil, "the puts run under a context derived from the DHT's lifetime context, not the caller's", "no context.WithTimeout(dht.ctx, ...) found") {
+		return
+	}
+	f.Walk(func(n ast.Node) bool {
+		switch x := n.(type) {
+		case *ast.DeferStmt:
+			if eng.CalleeObj(info, x.Call) == cancel {
+				c.Check(K(f.Name, "no deferred cancel of the puts"), x.Pos(), false, "returning from Provide does not cancel the puts still in flight (the function returns after a threshold of them, by design)", "the put context's cancel function is deferred")
+			}
+			return false
+		case *ast.CallExpr:
+			if eng.CalleeObj(info, x) == cancel {
+				g, _ := cf.Guarded(cf.LocOf(x), func(ft eng.Fact) bool { return ft.ErrOf(false, "(*dht.IpfsDHT).newOptimisticState") })
+				c.Check(K(f.Name, "cancel only before any put"), x.Pos(), g, "in its own flow the function cancels the put context only when it fails before starting any put", "cancel reachable after puts may have started")
+			}
+		}
+		return true
 	})
 }
 
@@ -400,6 +433,7 @@ func runC06(c *Ctx) {
 
 	// R7 optimistic provide schedules each peer once
 	c.Rule("R7")
+	c06PutContext(c)
 	{
 		n := 0
 		for _, fn := range []string{"(*dht.IpfsDHT).optimisticProvide", "(*dht.optimisticState).stopFn"} {
